@@ -38,7 +38,8 @@ Tols == {<<0, 1>>, <<1, 8>>}
 Inj(n) == {f \in [1..n -> Nodes] : \A a, b \in 1..n : a # b => f[a] # f[b]}
 QS(f, n) == [j \in 1..n |-> Q(f[j])]
 Probs == UNION { { [x |-> QS(f, n), y |-> QS(y, n), d |-> QS(dv, n), t |-> t] : f \in Inj(n), y \in [1..n -> Vals], dv \in [1..n -> Vals], t \in Tols } : n \in 1..NN }
-         \cup { [x |-> <<Q(0), Q(1)>>, y |-> <<Q(1)>>, d |-> <<Q(0), Q(0)>>, t |-> Q(0)], [x |-> <<Q(0)>>, y |-> <<Q(1)>>, d |-> <<>>, t |-> Q(0)] }
+         \cup { [x |-> <<Q(0), Q(1)>>, y |-> <<Q(1)>>, d |-> <<Q(0), Q(0)>>, t |-> Q(0)], [x |-> <<Q(0)>>, y |-> <<Q(1)>>, d |-> <<>>, t |-> Q(0)],
+              [x |-> <<>>, y |-> <<>>, d |-> <<>>, t |-> Q(0)] }
 
 Init == H!Init /\ prob \in Probs
 Begin == H!Begin(prob.x, prob.y, prob.d, prob.t) /\ UNCHANGED prob
@@ -60,6 +61,7 @@ n == Len(xs)
 DegreeBound == pc = "done" => Len(p) <= 2 * n
 MatchesValues == pc = "done" => \A j \in 1..n : QLe(QAbs(QSub(EvalP(p, xs[j], 1), ys[j])), Slack(xs[j], 2 * n))
 MatchesDerivatives == pc = "done" => \A j \in 1..n : QLe(QAbs(QSub(EvalP(Deriv(p), xs[j], 1), ds[j])), SlackD(xs[j], 2 * n))
-ErrExactlyForMismatch == pc = "err" <=> (pc # "idle" /\ (Len(xs) # Len(ys) \/ Len(xs) # Len(ds) \/ Len(xs) = 0))
-Terminates == <>(pc \in {"done", "err"})
+ErrExactlyForMismatch == pc = "err" <=> (pc # "idle" /\ (Len(xs) # Len(ys) \/ Len(xs) # Len(ds)))
+PanicOnlyWithoutNodes == pc = "panic" <=> (pc # "idle" /\ Len(xs) = 0 /\ Len(ys) = 0 /\ Len(ds) = 0)
+Terminates == <>(pc \in {"done", "err", "panic"})
 =============================================================================
